@@ -34,6 +34,7 @@ func init() {
 	register(&Scenario{Prop: "C10", Name: "encrypt-shared-event", Race: true, RaceFilter: c10RaceFilter, Run: runEncryptShared})
 	register(&Scenario{Prop: "C16", Name: "encrypt-keys", Run: func(rc *RunCtx) { runEncrypt(rc, "C16") }})
 	register(&Scenario{Prop: "C16", Name: "encrypt-rotate-conc", Run: runEncryptRotateConc})
+	register(&Scenario{Prop: "C16", Name: "encrypt-rotate-partial", Run: runEncryptRotatePartial})
 }
 
 // ---- payload types (the statement's shape grammar, written out) ----------------------
@@ -1904,5 +1905,118 @@ func runEncryptRotateConc(rc *RunCtx) {
 		check("SecE", r.in.SecE, r.out.SecE, "encrypt")
 		check("SensH", r.in.SensH, r.out.SensH, "hmac")
 		check("SecH", r.in.SecH, r.out.SecH, "hmac")
+	}
+}
+
+// ---- C16: two PARTIAL rotations at the same time --------------------------------------------
+//
+// A rotation may carry any subset of {wrapper, salt, info}. Two of them run concurrently on one
+// filter (Rotate and/or rotation payloads). When both have returned, "every event started later
+// uses the new wrapper, salt and info": the configuration in force is what results from
+// applying the two rotations in one order or the other -- no component may fall back.
+
+func runEncryptRotatePartial(rc *RunCtx) {
+	tp := rc.Tape
+	sim := rc.Sim
+	rc.UnorderedDigest = true
+	type cfg struct {
+		key        []byte
+		w          *aead.Wrapper
+		salt, info []byte
+	}
+	k1 := keyBytes(1)
+	cur := cfg{k1, newAead(k1, "key-1"), []byte("salt-1"), []byte("info-1")}
+	f := &encrypt.Filter{Wrapper: cur.w, HmacSalt: cur.salt, HmacInfo: cur.info}
+	type rotation struct {
+		key        []byte
+		w          *aead.Wrapper
+		salt, info []byte
+		viaPayload bool
+	}
+	mkRot := func(n int) rotation {
+		var r rotation
+		mask := 1 + tp.Choose(7, "components") // bit 0 wrapper, bit 1 salt, bit 2 info
+		if mask&1 != 0 {
+			r.key = keyBytes(10 + n)
+			r.w = newAead(r.key, fmt.Sprintf("key-%d", 10+n))
+		}
+		if mask&2 != 0 {
+			r.salt = []byte(fmt.Sprintf("salt-%d", 10+n))
+		}
+		if mask&4 != 0 {
+			r.info = []byte(fmt.Sprintf("info-%d", 10+n))
+		}
+		r.viaPayload = tp.Choose(2, "via-payload") == 0
+		return r
+	}
+	rots := []rotation{mkRot(1), mkRot(2)}
+	apply := func(c cfg, r rotation) cfg {
+		if r.w != nil {
+			c.key, c.w = r.key, r.w
+		}
+		if r.salt != nil {
+			c.salt = r.salt
+		}
+		if r.info != nil {
+			c.info = r.info
+		}
+		return c
+	}
+	finished := 0
+	for i, r := range rots {
+		sim.Spawn(fmt.Sprintf("rotator%d", i), func() {
+			simrt.Yield("rotator:start")
+			if r.viaPayload {
+				p := &encRotate{salt: r.salt, info: r.info}
+				if r.w != nil {
+					p.w = r.w
+				}
+				f.Process(context.Background(), &el.Event{Type: "rotate", Payload: p})
+			} else {
+				var opts []encrypt.Option
+				if r.w != nil {
+					opts = append(opts, encrypt.WithWrapper(r.w))
+				}
+				if r.salt != nil {
+					opts = append(opts, encrypt.WithSalt(r.salt))
+				}
+				if r.info != nil {
+					opts = append(opts, encrypt.WithInfo(r.info))
+				}
+				f.Rotate(opts...)
+			}
+			finished++
+		})
+	}
+	sim.Run(nil)
+	rc.NonTrivial = true
+	rc.Desc = map[string]interface{}{"rotations": fmt.Sprintf("%+v", []string{fmt.Sprintf("w=%v salt=%s info=%s payload=%v", rots[0].w != nil, rots[0].salt, rots[0].info, rots[0].viaPayload), fmt.Sprintf("w=%v salt=%s info=%s payload=%v", rots[1].w != nil, rots[1].salt, rots[1].info, rots[1].viaPayload)})}
+	if sim.Stuck || finished != 2 {
+		rc.Failf("C16.stuck", stuckClass(sim), "concurrent rotations did not finish: %s", strings.Join(sim.StuckInfo, "; "))
+		return
+	}
+	// an event started after both rotations returned
+	in := &encLeaf{Sens: "sens-probe-value", SensH: "hmac-probe-value", SecH: "hmac-probe-2"}
+	var out *el.Event
+	var perr error
+	sim.Spawn("probe", func() {
+		out, perr = f.Process(context.Background(), &el.Event{Type: "t", Payload: in})
+	})
+	sim.Run(nil)
+	if perr != nil || out == nil {
+		rc.Failf("C16.spurious-error", "after-partial-rotations", "Process failed after the rotations: %v", perr)
+		return
+	}
+	o := out.Payload.(*encLeaf)
+	finals := []cfg{apply(apply(cur, rots[0]), rots[1]), apply(apply(cur, rots[1]), rots[0])}
+	okAny := false
+	for _, c := range finals {
+		pt, derr := decryptWith(c.w, o.Sens)
+		if derr == nil && string(pt) == in.Sens && o.SensH == indepHMAC(c.key, c.salt, c.info, []byte(in.SensH)) && o.SecH == indepHMAC(c.key, c.salt, c.info, []byte(in.SecH)) {
+			okAny = true
+		}
+	}
+	if !okAny {
+		rc.Failf("C16.stale-key", "after-concurrent-partial-rotations", "after both rotations returned, a new event is not protected under the configuration that either order of the two rotations leaves in force (a component fell back to an earlier value)")
 	}
 }
